@@ -82,6 +82,13 @@ def encode(kind, tree, task=None):
         if kind == 'continues':
             d.finished()
         return d
+    if kind == 'figure':
+        import pylab
+        f = pylab.Figure()
+        ax = f.add_subplot(111)
+        ax.plot([1, 2, 3])
+        ax.set_title(blob)      # the figure carries the provenance tree as its title
+        return f
     if kind == 'mem':
         return MemVal(tree)
     raise ValueError(kind)
@@ -121,6 +128,8 @@ def decode(kind, value):
             if have != want:
                 raise ValueError(f'directory result holds {sorted(have)}, the run that produced it wrote {sorted(want)}')
         return tree
+    if kind == 'figure':
+        return json.loads(value.axes[0].get_title())
     if kind == 'mem':
         return value.tree
     raise ValueError(kind)
@@ -128,10 +137,10 @@ def decode(kind, value):
 
 RETURN_TYPES = {
     'json': dict, 'numpy': np.ndarray, 'pandas': pd.DataFrame, 'generated': Generator, 'lazy': GeneratedDataLazy,
-    'listnpy': ListOfNumpyData, 'dir': DirData, 'continues': ContinuesData, 'mem': MemVal,
+    'listnpy': ListOfNumpyData, 'dir': DirData, 'continues': ContinuesData, 'mem': MemVal, 'figure': None,
 }
 EXT = {'json': '.json', 'numpy': '.npy', 'pandas': '.pd', 'generated': '.jsonl', 'lazy': '.jsonl',
-       'listnpy': '', 'dir': '', 'continues': '', 'mem': None}
+       'listnpy': '', 'dir': '', 'continues': '', 'mem': None, 'figure': '.pickle'}
 
 
 def body(task, ins, params):
@@ -271,7 +280,7 @@ def make_task_class(spec, module_name='vgen'):
     ns = {'_body': body}
     exec(src, ns)
     run = ns['run']
-    run.__annotations__['return'] = RETURN_TYPES[spec['kind']]
+    run.__annotations__['return'] = RETURN_TYPES[spec['kind']] or __import__('pylab').Figure
     meta = {'name': name}
     if group:
         meta['task_group'] = group
